@@ -85,6 +85,12 @@ func atomFamilies(atoms []gnAtom) [][]gnAtom {
 		by[k] = append(by[k], a)
 	}
 	for _, a := range atoms {
+		// names that are odd as *encodings* (empty values of several kinds, the constructed kinds) next to a plain one: a walker
+		// over the raw SAN that loses its place inside one entry misjudges the entries after it
+		switch a.desc {
+		case "dns:", "email:", "dirname", "rid", "other:upn", "ip:010203", "dns:example.com", "uri:/relative":
+			add("encodings", a)
+		}
 		if !strings.HasPrefix(a.desc, "dns:") {
 			continue
 		}
